@@ -200,8 +200,12 @@ def check(ctx):
         for node in body_nodes(fn.node):
             if not isinstance(node, ast.If):
                 continue
-            subs = [n for n in ast.walk(node.test) if isinstance(n, ast.Subscript) and isinstance(n.slice, ast.Constant)
-                    and isinstance(n.slice.value, int) and isinstance(n.value, ast.Name) and n.value.id in fn.all_params]
+            def _const_index(sl):
+                return (isinstance(sl, ast.Constant) and isinstance(sl.value, int)) or (
+                    isinstance(sl, ast.UnaryOp) and isinstance(sl.op, ast.USub) and isinstance(sl.operand, ast.Constant)
+                    and isinstance(sl.operand.value, int))
+            subs = [n for n in ast.walk(node.test) if isinstance(n, ast.Subscript) and _const_index(n.slice)
+                    and isinstance(n.value, ast.Name) and n.value.id in fn.all_params]
             if not subs:
                 continue
             assigns = [n for n in ast.walk(node) if isinstance(n, ast.Assign) and norm(n.targets[0]) == "dtype"]
